@@ -326,6 +326,8 @@ def frame_layers(F, S):
 
 def check(F, run, tier):
     S = Summaries(F)
+    from ..rules_archive import discarded_exception_obligations
+    discarded_exception_obligations(F, S, run)
     # refusals at the edge of an integer type's range are exact (neither the largest representable value is turned away nor
     # the first unrepresentable one let through), wherever in the library they are made
     from ..rules_stream import capacity_refusals_exact
